@@ -15,6 +15,13 @@ pub use metadata::*;
 pub use predicate::{PredicateLayout, PredicateVer, PredicateWrapper};
 pub use statement::{StatementVer, StatementWrapper};
 
+#[cfg(in_toto_verif)]
+pub use envelope::{DSSEVersion, EnvelopeFile};
+#[cfg(in_toto_verif)]
+pub use predicate::{LinkV02, SLSAProvenanceV01, SLSAProvenanceV02};
+#[cfg(in_toto_verif)]
+pub use statement::{StateNaive, StateV01};
+
 #[cfg(test)]
 mod test {
     use once_cell::sync::Lazy;
